@@ -685,6 +685,56 @@ func ruleCanonPure(r *core.Reporter) {
 			}
 		})
 	}
+	// NormalizeURL may write through its first argument (the URL being normalised) and locals only:
+	// a store through the parent URL (or the *url.URL it hands out) makes the result of later siblings
+	// depend on the order in which they were normalised.
+	if nu := p.Func(rel(pkgPre), "NormalizeURL"); nu != nil && len(nu.Params) == 2 {
+		parent := nu.Params[1]
+		bad := ssa.Instruction(nil)
+		allInstrs(nu, func(in ssa.Instruction) {
+			st, ok := in.(*ssa.Store)
+			if !ok {
+				return
+			}
+			v := st.Addr
+			for i := 0; i < 12 && v != nil; i++ {
+				if v == ssa.Value(parent) {
+					bad = in
+					return
+				}
+				switch x := v.(type) {
+				case *ssa.FieldAddr:
+					v = x.X
+				case *ssa.IndexAddr:
+					v = x.X
+				case *ssa.UnOp:
+					v = x.X
+				case *ssa.Phi:
+					var only ssa.Value
+					for _, e := range x.Edges {
+						if e != ssa.Value(x) {
+							only = e
+						}
+					}
+					v = only
+				case *ssa.Call:
+					// accessor on the parent that hands out its internal pointer
+					if len(x.Call.Args) > 0 && ir.SameValue(x.Call.Args[0], parent) {
+						v = parent
+					} else {
+						v = nil
+					}
+				default:
+					v = nil
+				}
+			}
+		})
+		if bad != nil {
+			r.Violated("NormalizeURL/parent-untouched", p.InstrPos(bad), "NormalizeURL writes through its parent argument (the parent's own parsed URL is modified): siblings normalised later resolve against a different base, so the result depends on processing order")
+		} else {
+			r.Held("NormalizeURL/parent-untouched", 1, "no store through the parent URL")
+		}
+	}
 	str := p.Func(rel(pkgModels), "(*URL).String")
 	if str == nil {
 		r.Undecided("(*URL).String", "", "anchor not found")
